@@ -102,6 +102,9 @@ def oracle_parser(ctx, cfg, data, segs, o, default_limits):
     lines_ = data.split(b"\r\n")
     if max(len(l) for l in lines_) > 8000 or any(blk.count(b"\r\n") > 120 for blk in data.split(b"\r\n\r\n")):
         default_limits = False   # the strict reader knows no limits
+    import re as _re
+    if _re.search(rb"(?i)content-length:[ \t]*[0-9]{4301}", data):
+        default_limits = False   # int() conversion limit: treated like a size limit (safe rejection)
     if default_limits and H.rejected(o) and len(segs) == 1:
         # each strictly valid complete request, fed on its own to a fresh parser, must be accepted
         for k, r in enumerate(ref):
